@@ -296,7 +296,7 @@ def h_auto_mode(ctx, spacing, scenario):
                   and req.bit_rate == dict((m[0], m[2]) for m in MODES)[expected])
 
 
-def h_auto_mode_own_tx_osnr(ctx):
+def h_auto_mode_own_tx_osnr(ctx, own_tables=False):
     """modes of one baud rate with DIFFERENT transmitter OSNR: whichever mode automatic selection ends on, the receiver
     figures it reports are those obtained when that mode is imposed (each mode's own transmitter OSNR counted once)"""
     from gnpy.topology.request import compute_path_with_disjunction
@@ -306,9 +306,16 @@ def h_auto_mode_own_tx_osnr(ctx):
     modes = [('hi', 32e9, 200e9, 37.5e9, 40.0), ('mid', 32e9, 150e9, 37.5e9, 33.0), ('lo', 32e9, 100e9, 37.5e9, 28.0)]
     thr = {m[0]: ctx.real(f'required_osnr_{m[0]}', lo=5, hi=30) for m in modes}
     g, split = _symbolic_figures(ctx, '', k=3)
+    # every mode may come with its own set of penalty tables: the first mode has a PMD table the line exceeds, the others none
+    tables = {m[0]: PENALTIES for m in modes}
+    scen = 'zero'
+    if own_tables:
+        scen = 'inside'                   # PMD 3 / 8 / 6 ps on the three channels
+        tables = {'hi': {'pmd': {'up_to_boundary': [0.0, 5.0], 'penalty_value': [0.0, 0.5]}},
+                  'mid': {'chromatic_dispersion': PENALTIES['chromatic_dispersion']}, 'lo': {}}
 
     def run(forced):
-        path = _make_path(ctx, '', g, split, 'zero')
+        path = _make_path(ctx, '', g, split, scen)
 
         class _Oms:
             pass
@@ -319,13 +326,14 @@ def h_auto_mode_own_tx_osnr(ctx):
         eq_ = _eqpt(margin)
         trx = deepcopy(eq_['Transceiver']['Voyager'])
         trx.mode = [dict(format=f, baud_rate=b, OSNR=thr[f], bit_rate=br, roll_off=0.15, tx_osnr=tx, min_spacing=ms, cost=1,
-                         penalties=deepcopy(PENALTIES), equalization_offset_db=0) for f, b, br, ms, tx in modes]
+                         penalties=deepcopy(tables[f]), equalization_offset_db=0) for f, b, br, ms, tx in modes]
         eq_['Transceiver']['stub_trx'] = trx
         if forced is None:
             req = _request(None, mode=False, spacing=50e9)
         else:
             m = [x for x in modes if x[0] == forced][0]
             req = _request(thr[forced], mode=True, spacing=50e9, baud=m[1])
+            req.penalties = deepcopy(tables[forced])
             req.tsp_mode = req.format = forced
             req.bit_rate, req.tx_osnr, req.min_spacing = m[2], m[4], m[3]
         res, _, _ = compute_path_with_disjunction(None, eq_, [req], [path])
@@ -333,10 +341,35 @@ def h_auto_mode_own_tx_osnr(ctx):
     req, pth = run(None)
     chosen = req.tsp_mode
     info = dict(chosen=chosen, blocking=getattr(req, 'blocking_reason', None))
-    if chosen is None or not pth:
+    def clearly_feasible(mode_name, rpth):
+        rx = rpth[-1]
+        vals = [rx.snr_01nm[i] - (rx.total_penalty[i] if hasattr(rx.total_penalty, '__len__') else rx.total_penalty) for i in range(3)]
+        worst = vals[0]
+        for v in vals[1:]:
+            if bool(v < worst):
+                worst = v
+        return bool(worst >= thr[mode_name] + 0.01)
+    if hasattr(req, 'blocking_reason') or chosen is None or not pth:
         ctx.prove('no mode chosen: blocked with a reason', hasattr(req, 'blocking_reason'), info=info)
+        if own_tables:
+            # blocked by automatic selection: then no mode may be clearly feasible when imposed
+            for m in modes:
+                r2, p2 = run(m[0])
+                if p2 and not hasattr(r2, 'blocking_reason') and clearly_feasible(m[0], p2):
+                    ctx.prove('automatic selection does not block a request one of whose modes is feasible when imposed', False,
+                              info=dict(info, feasible_mode=m[0]))
+                    break
         return
     ref_req, ref_pth = run(chosen)
+    rx = ref_pth[-1]
+    vals = [rx.snr_01nm[i] - (rx.total_penalty[i] if hasattr(rx.total_penalty, '__len__') else rx.total_penalty) for i in range(3)]
+    worst = vals[0]
+    for v in vals[1:]:
+        if bool(v < worst):
+            worst = v
+    if bool(worst >= thr[chosen] + 0.01):       # clearly feasible (outside the rounding band) when this mode is imposed
+        ctx.prove('a mode that is feasible when imposed is not reported blocked by automatic selection',
+                  getattr(req, 'blocking_reason', None) is None, info=dict(info, imposed_blocking=getattr(ref_req, 'blocking_reason', None)))
     for i in range(3):
         ctx.prove(f'receiver GSNR reported for the selected mode equals the one of that mode imposed [{i}]',
                   approx(10 ** (pth[-1].snr_01nm[i] / 10), 10 ** (ref_pth[-1].snr_01nm[i] / 10), 1e-9), info=info)
@@ -390,6 +423,7 @@ def jobs(tier):
             js.append(dict(name=f'H13b:auto_mode:spacing{spacing * 1e-9:g}:{sc}', fn='h_auto_mode',
                            params=dict(spacing=spacing, scenario=sc), cost=60))
     js.append(dict(name='H13b:auto_mode:own_tx_osnr_per_mode', fn='h_auto_mode_own_tx_osnr', cost=80))
+    js.append(dict(name='H13b:auto_mode:own_penalty_tables_per_mode', fn='h_auto_mode_own_tx_osnr', params=dict(own_tables=True), cost=80))
     for n in (1, 2, 3):
         js.append(dict(name=f'H13c:penalty_normalisation:{n}pts', fn='h_penalty_normalisation', params=dict(npts=n)))
     return js
